@@ -90,7 +90,7 @@ impl Prop for C11 {
         700
     }
     fn cases(&self, tier: Tier) -> u32 {
-        tier.pick(24_000, 600_000)
+        tier.pick(300_000, 5_000_000)
     }
     fn decode(&self, choices: &[u32], _tier: Tier) -> Value {
         let mut ch = Choices::new(choices);
